@@ -213,3 +213,309 @@ theorem isPartOfLoop_iff {α : Type} [DecidableEq α] (self : List α) :
         · rintro ⟨h, _⟩; exact absurd h.symm hne
 
 end Links
+
+namespace Links
+
+/-! ### Bool definitions as propositions -/
+
+theorem doubleBad_iff {H : Hier} {i j : Link} :
+    doubleBad H i j = true ↔ linkEq H i j = false ∧ i.left = j.right ∧ i.right = j.left ∧ i.jt.stacking = false := by
+  simp [doubleBad, and_assoc]
+
+theorem conflictBad_iff {H : Hier} {i j : Link} :
+    conflictBad H i j = true ↔ linkEq H i j = false ∧ i.left = j.left ∧ i.right = j.right ∧ i.jt ≠ j.jt := by
+  simp [conflictBad, and_assoc]
+
+theorem rightBad_iff {H : Hier} {i j : Link} :
+    rightBad H i j = true ↔ i.jt = .right ∧ linkEq H i j = false ∧ (i.left = j.left ∨ i.left = j.right) := by
+  simp [rightBad, and_assoc]
+
+theorem differ_iff {i j : Link} :
+    Spec.differ i j = true ↔ (i.jt ≠ j.jt ∨ i.left ≠ j.left ∨ i.right ≠ j.right ∨ i.li ≠ j.li ∨ i.ri ≠ j.ri) := by
+  simp [Spec.differ, or_assoc]
+
+theorem differ_self (i : Link) : Spec.differ i i = false := by simp [Spec.differ]
+
+theorem twoJoins_iff {i j : Link} :
+    Spec.twoJoins i j = true ↔ Spec.differ i j = true ∧
+      ((i.left = j.left ∧ i.right = j.right) ∨ (i.left = j.right ∧ i.right = j.left)) ∧
+      ¬ (i.jt.stacking = true ∧ j.jt.stacking = true) := by
+  simp only [Spec.twoJoins, Spec.samePair, Bool.and_eq_true, Bool.or_eq_true, beq_iff_eq, Bool.not_eq_true',
+    Bool.and_eq_false_imp, and_assoc]
+  constructor
+  · rintro ⟨h1, h2, h3⟩
+    refine ⟨h1, h2, ?_⟩
+    rintro ⟨a, b⟩
+    rw [h3 a] at b; cases b
+  · rintro ⟨h1, h2, h3⟩
+    refine ⟨h1, h2, ?_⟩
+    intro a
+    cases hb : j.jt.stacking
+    · rfl
+    · exact absurd ⟨a, hb⟩ h3
+
+theorem typeConflict_iff {i j : Link} :
+    Spec.typeConflict i j = true ↔ i.left = j.left ∧ i.right = j.right ∧ i.jt ≠ j.jt := by
+  simp [Spec.typeConflict, and_assoc]
+
+theorem rightShare_iff {i j : Link} :
+    Spec.rightShare i j = true ↔ Spec.differ i j = true ∧ i.jt = .right ∧ j.jt = .right ∧ i.left = j.left := by
+  simp [Spec.rightShare, and_assoc]
+
+/-- links that are not `__eq__` differ in some field other than the identity (names are a function of the class) -/
+theorem differ_of_not_linkEq {H : Hier} {i j : Link} (h : linkEq H i j = false) : Spec.differ i j = true := by
+  rw [differ_iff]
+  false_or_by_contra
+  rename_i hc
+  simp only [not_or, Decidable.not_not] at hc
+  obtain ⟨h1, h2, h3, h4, h5⟩ := hc
+  simp [linkEq, h1, h2, h3, h4, h5] at h
+
+theorem linkEq_symm {H : Hier} {i j : Link} : linkEq H i j = linkEq H j i := by
+  simp only [linkEq]
+  rw [Bool.eq_iff_iff]
+  simp only [Bool.and_eq_true, beq_iff_eq]
+  constructor <;> rintro ⟨⟨⟨⟨a, b⟩, c⟩, d⟩, e⟩ <;> exact ⟨⟨⟨⟨a.symm, b.symm⟩, c.symm⟩, d.symm⟩, e.symm⟩
+
+end Links
+
+namespace Links
+
+/-! ### `_select_most_specific_links` / `_find_matching_links` membership -/
+
+theorem mem_select {H : Hier} {ls : List Link} {x y : Cls} {l : Link} :
+    l ∈ selectMostSpecific H ls x y ↔
+      l ∈ ls ∧ ∃ d, score H x y l = some d ∧ ∀ m ∈ ls, ∀ d', score H x y m = some d' → d ≤ d' := by
+  have hld : ∀ (p : Link × Nat), p ∈ ls.filterMap (fun l => (score H x y l).map (fun d => (l, d))) ↔
+      p.1 ∈ ls ∧ score H x y p.1 = some p.2 := by
+    intro p
+    simp only [List.mem_filterMap, Option.map_eq_some_iff]
+    constructor
+    · rintro ⟨a, ha, d, hd, rfl⟩; exact ⟨ha, hd⟩
+    · rintro ⟨h1, h2⟩; exact ⟨p.1, h1, p.2, h2, rfl⟩
+  have hds : ∀ d', d' ∈ (ls.filterMap (fun l => (score H x y l).map (fun d => (l, d)))).map (·.2) ↔
+      ∃ m ∈ ls, score H x y m = some d' := by
+    intro d'
+    simp only [List.mem_map]
+    constructor
+    · rintro ⟨p, hp, rfl⟩; exact ⟨p.1, ((hld p).mp hp).1, ((hld p).mp hp).2⟩
+    · rintro ⟨m, hm, hs⟩; exact ⟨(m, d'), (hld (m, d')).mpr ⟨hm, hs⟩, rfl⟩
+  unfold selectMostSpecific
+  simp only
+  cases hmin : minOf ((ls.filterMap (fun l => (score H x y l).map (fun d => (l, d)))).map (·.2)) with
+  | none =>
+    simp only [List.not_mem_nil, false_iff]
+    rintro ⟨hl, d, hd, _⟩
+    have : d ∈ (ls.filterMap (fun l => (score H x y l).map (fun d => (l, d)))).map (·.2) := (hds d).mpr ⟨l, hl, hd⟩
+    rw [minOf_eq_none.mp hmin] at this
+    cases this
+  | some m0 =>
+    obtain ⟨hm1, hm2⟩ := minOf_spec hmin
+    simp only [List.mem_map, List.mem_filter, beq_iff_eq]
+    constructor
+    · rintro ⟨p, ⟨hp, hpm⟩, rfl⟩
+      obtain ⟨h1, h2⟩ := (hld p).mp hp
+      refine ⟨h1, m0, hpm ▸ h2, ?_⟩
+      intro m hm d' hd'
+      exact hm2 d' ((hds d').mpr ⟨m, hm, hd'⟩)
+    · rintro ⟨hl, d, hd, hmin'⟩
+      obtain ⟨m, hm, hsm⟩ := (hds m0).mp hm1
+      have h1 : d ≤ m0 := hmin' m hm m0 hsm
+      have h2 : m0 ≤ d := hm2 d ((hds d).mpr ⟨l, hl, hd⟩)
+      have : d = m0 := Nat.le_antisymm h1 h2
+      exact ⟨(l, d), ⟨(hld (l, d)).mpr ⟨hl, hd⟩, this⟩, rfl⟩
+
+/-- no link of the set has exactly the two classes -/
+def NoExact (ls : List Link) (x y : Cls) : Prop := ∀ l ∈ ls, ¬ (l.left = x ∧ l.right = y)
+
+theorem find_of_exact {H : Hier} {ls : List Link} {x y : Cls} (h : ¬ NoExact ls x y) :
+    findMatchingLinks H ls x y = ls.filter (fun l => matchesExact l x y) := by
+  unfold findMatchingLinks
+  simp only
+  have : (ls.filter (fun l => matchesExact l x y)).isEmpty = false := by
+    rw [Bool.eq_false_iff]
+    intro he
+    apply h
+    intro l hl hc
+    have : l ∈ ls.filter (fun l => matchesExact l x y) := by
+      simp [List.mem_filter, matchesExact, hl, hc.1, hc.2]
+    rw [List.isEmpty_iff.mp he] at this
+    cases this
+  simp [this]
+
+theorem find_of_noExact {H : Hier} {ls : List Link} {x y : Cls} (h : NoExact ls x y) :
+    findMatchingLinks H ls x y = selectMostSpecific H (ls.filter (fun l => matchesPoly H l x y)) x y := by
+  unfold findMatchingLinks
+  simp only
+  have : ls.filter (fun l => matchesExact l x y) = [] := by
+    apply List.filter_eq_nil_iff.mpr
+    intro l hl
+    have := h l hl
+    simp only [matchesExact, Bool.and_eq_true, beq_iff_eq]
+    exact this
+  rw [this]
+  simp only [List.isEmpty_nil, Bool.not_true, Bool.false_eq_true, if_false]
+  split
+  · rename_i he
+    rw [List.isEmpty_iff.mp he]
+    simp [selectMostSpecific, minOf]
+  · rfl
+
+end Links
+
+namespace Links
+
+theorem select_eq_filter (H : Hier) (ls : List Link) (x y : Cls) (m : Nat) :
+    ((ls.filterMap (fun l => (score H x y l).map (fun d => (l, d)))).filter (fun p => p.2 == m)).map (·.1)
+      = ls.filter (fun l => score H x y l == some m) := by
+  induction ls with
+  | nil => rfl
+  | cons a as ih =>
+    simp only [List.filterMap_cons, List.filter_cons]
+    cases hs : score H x y a with
+    | none => simp [ih]
+    | some d =>
+      simp only [Option.map_some, List.filter_cons]
+      by_cases hd : d = m
+      · subst hd; simp [ih]
+      · have : (d == m) = false := by simpa using hd
+        simp [this, ih]
+
+theorem admissible_poly {H : Hier} {x y : Cls} {l : Link} (h : Spec.admissible H x y l = true) :
+    matchesPoly H l x y = true := by
+  simp only [Spec.admissible, Bool.and_eq_true] at h
+  simp [matchesPoly, h.1.1.1, h.1.1.2]
+
+/-- off the asymmetric input class the coded per-link branch is the documented rule -/
+theorem score_eq {H : Hier} {x y : Cls} {l : Link} (hp : matchesPoly H l x y = true)
+    (ha : asymmetricAdmitted H x y l = false) :
+    score H x y l = if Spec.admissible H x y l then some (H.dist x l.left) else none := by
+  simp only [matchesPoly, Bool.and_eq_true] at hp
+  simp only [asymmetricAdmitted, matchesPoly, hp.1, hp.2, Bool.and_self, Bool.true_and] at ha
+  simp only [score, Spec.admissible, hp.1, hp.2, Bool.and_self, Bool.true_and]
+  by_cases h1 : l.left = l.right
+  · simp only [h1, beq_self_eq_true, if_true, bne_self_eq_false, Bool.false_or]
+    by_cases h2 : x = y <;> by_cases h3 : H.dist x l.right = H.dist y l.right <;> simp [h2, h3]
+  · have h1' : (l.left == l.right) = false := by simpa using h1
+    have h1'' : (l.left != l.right) = true := by simpa using h1
+    simp only [h1', Bool.false_eq_true, if_false, h1'', Bool.true_or, Bool.and_true]
+    by_cases h3 : H.dist x l.left = H.dist y l.right
+    · simp [h3]
+    · have h3' : (H.dist x l.left == H.dist y l.right) = false := by simpa using h3
+      have h3'' : (H.dist x l.left != H.dist y l.right) = true := by simpa using h3
+      simp only [h1'', h3'', Bool.true_and] at ha
+      simp only [h3', Bool.false_eq_true, if_false]
+      rw [ha]; simp
+
+end Links
+
+namespace Links
+
+/-! ### set construction -/
+
+theorem linkEq_refl (H : Hier) (a : Link) : linkEq H a a = true := by simp [linkEq]
+
+theorem linkEq_trans {H : Hier} {a b c : Link} (h1 : linkEq H a b = true) (h2 : linkEq H b c = true) :
+    linkEq H a c = true := by
+  simp only [linkEq, Bool.and_eq_true, beq_iff_eq] at *
+  obtain ⟨⟨⟨⟨a1, a2⟩, a3⟩, a4⟩, a5⟩ := h1
+  obtain ⟨⟨⟨⟨b1, b2⟩, b3⟩, b4⟩, b5⟩ := h2
+  exact ⟨⟨⟨⟨a1.trans b1, a2.trans b2⟩, a3.trans b3⟩, a4.trans b4⟩, a5.trans b5⟩
+
+/-! ### `ResolveLinkValidator.validate_no_conflicting_join_types` -/
+
+def look (seen : List ((Cls × Cls) × JoinType)) (k : Cls × Cls) : Option JoinType :=
+  (seen.find? (fun e => e.1 == k)).map (·.2)
+
+theorem look_append (seen : List ((Cls × Cls) × JoinType)) (k k' : Cls × Cls) (jt : JoinType) :
+    look (seen ++ [(k', jt)]) k = match look seen k with
+      | some r => some r
+      | none => if k' = k then some jt else none := by
+  unfold look
+  rw [List.find?_append]
+  cases h : seen.find? (fun e => e.1 == k) with
+  | some e => simp
+  | none =>
+    by_cases hk : k' = k
+    · subst hk; simp
+    · have : (k' == k) = false := by simpa using hk
+      simp [this, hk]
+
+def Conflict (a b : Link) : Prop := a.left = b.left ∧ a.right = b.right ∧ a.jt ≠ b.jt
+
+theorem resolveConflictLoop_iff (ls : List Link) : ∀ seen : List ((Cls × Cls) × JoinType),
+    resolveConflictLoop seen ls = true ↔
+      (∃ l ∈ ls, ∃ jt, look seen (l.left, l.right) = some jt ∧ jt ≠ l.jt) ∨
+      (∃ a ∈ ls, ∃ b ∈ ls, Conflict a b) := by
+  induction ls with
+  | nil => intro seen; simp [resolveConflictLoop]
+  | cons l ls ih =>
+    intro seen
+    simp only [resolveConflictLoop]
+    cases hf : seen.find? (fun e => e.1 == (l.left, l.right)) with
+    | some e =>
+      have hlook : look seen (l.left, l.right) = some e.2 := by simp [look, hf]
+      simp only
+      by_cases hjt : e.2 = l.jt
+      · have : (e.2 != l.jt) = false := by simpa using hjt
+        simp only [this, Bool.false_eq_true, if_false]
+        rw [ih seen]
+        constructor
+        · rintro (⟨l', hl', jt, h1, h2⟩ | ⟨a, ha, b, hb, hc⟩)
+          · exact Or.inl ⟨l', List.mem_cons_of_mem _ hl', jt, h1, h2⟩
+          · exact Or.inr ⟨a, List.mem_cons_of_mem _ ha, b, List.mem_cons_of_mem _ hb, hc⟩
+        · -- a conflict involving `l` shows up as a mismatch with the remembered join type of its pair
+          have key : ∀ b ∈ ls, (l.left = b.left ∧ l.right = b.right ∧ l.jt ≠ b.jt) →
+              ∃ l' ∈ ls, ∃ jt, look seen (l'.left, l'.right) = some jt ∧ jt ≠ l'.jt := by
+            intro b hb hc
+            refine ⟨b, hb, e.2, ?_, ?_⟩
+            · rw [← hc.1, ← hc.2.1]; exact hlook
+            · rw [hjt]; exact hc.2.2
+          rintro (⟨l', hl', jt, h1, h2⟩ | ⟨a, ha, b, hb, hc⟩)
+          · rcases List.mem_cons.mp hl' with rfl | hl'
+            · rw [hlook] at h1; simp at h1; exact absurd (h1 ▸ hjt) h2
+            · exact Or.inl ⟨l', hl', jt, h1, h2⟩
+          · rcases List.mem_cons.mp ha with rfl | ha' <;> rcases List.mem_cons.mp hb with rfl | hb'
+            · exact absurd rfl hc.2.2
+            · exact Or.inl (key b hb' hc)
+            · exact Or.inl (key a ha' ⟨hc.1.symm, hc.2.1.symm, Ne.symm hc.2.2⟩)
+            · exact Or.inr ⟨a, ha', b, hb', hc⟩
+      · have : (e.2 != l.jt) = true := by simpa using hjt
+        simp only [this, if_true, true_iff]
+        exact Or.inl ⟨l, List.mem_cons_self, e.2, hlook, hjt⟩
+    | none =>
+      have hlook : look seen (l.left, l.right) = none := by simp [look, hf]
+      simp only
+      rw [ih]
+      constructor
+      · rintro (⟨l', hl', jt, h1, h2⟩ | ⟨a, ha, b, hb, hc⟩)
+        · rw [look_append] at h1
+          cases hs : look seen (l'.left, l'.right) with
+          | some r =>
+            rw [hs] at h1; simp at h1
+            exact Or.inl ⟨l', List.mem_cons_of_mem _ hl', r, hs, h1 ▸ h2⟩
+          | none =>
+            rw [hs] at h1
+            by_cases hk : (l.left, l.right) = (l'.left, l'.right)
+            · simp [hk] at h1
+              simp only [Prod.mk.injEq] at hk
+              exact Or.inr ⟨l, List.mem_cons_self, l', List.mem_cons_of_mem _ hl', hk.1, hk.2, h1 ▸ h2⟩
+            · simp [hk] at h1
+        · exact Or.inr ⟨a, List.mem_cons_of_mem _ ha, b, List.mem_cons_of_mem _ hb, hc⟩
+      · have key : ∀ b ∈ ls, (l.left = b.left ∧ l.right = b.right ∧ l.jt ≠ b.jt) →
+            ∃ l' ∈ ls, ∃ jt, look (seen ++ [((l.left, l.right), l.jt)]) (l'.left, l'.right) = some jt ∧ jt ≠ l'.jt := by
+          intro b hb hc
+          refine ⟨b, hb, l.jt, ?_, hc.2.2⟩
+          rw [look_append, ← hc.1, ← hc.2.1, hlook]; simp
+        rintro (⟨l', hl', jt, h1, h2⟩ | ⟨a, ha, b, hb, hc⟩)
+        · rcases List.mem_cons.mp hl' with rfl | hl'
+          · rw [hlook] at h1; cases h1
+          · refine Or.inl ⟨l', hl', jt, ?_, h2⟩
+            rw [look_append, h1]
+        · rcases List.mem_cons.mp ha with rfl | ha' <;> rcases List.mem_cons.mp hb with rfl | hb'
+          · exact absurd rfl hc.2.2
+          · exact Or.inl (key b hb' hc)
+          · exact Or.inl (key a ha' ⟨hc.1.symm, hc.2.1.symm, Ne.symm hc.2.2⟩)
+          · exact Or.inr ⟨a, ha', b, hb', hc⟩
+
+end Links
